@@ -238,6 +238,30 @@ theorem putVictim_all {s : State} (h : InvW s) (hz : ZNet s) (old : Option Page)
       simp only [List.mem_singleton] at hid; subst hid
       exact (h.priMem o.id).2 ⟨o, ho, rfl, by omega⟩
 
+theorem putTail_all {s : State} (h : InvW s) (hz : ZNet s) {cn : Net} (hcn : cn ∈ s.nets) (a : PutArg) (k1 k2 : Nat) (avail0 : Int)
+    {s' : State} {r : Option Page} (hres : s.putTail cn.id a k1 k2 avail0 = .ok (s', r)) :
+    InvW s' ∧ ZNet s' ∧ s'.memUsed ≤ s.memUsed ∧ s'.memLimit = s.memLimit := by
+  unfold State.putTail at hres
+  simp only at hres
+  obtain ⟨a1, a2, a3, a4, a5, _, _, a8, a9⟩ := pageByPgno_all h cn.id a.pgno (k1 &&& k2) k2
+  generalize s.pageByPgno cn.id a.pgno (k1 &&& k2) k2 = r0 at hres a1 a2 a3 a4 a5 a8 a9
+  have z1 : ZNet r0.1 := znet_of_key (by rw [a2]) hz
+  obtain ⟨b1, b2, b3, b4, b5, b6, b7⟩ := putVictim_all a1 z1 r0.2 avail0 (fun o ho => (a3 o).2 (a9 o ho).1)
+  generalize r0.1.putVictim r0.2 avail0 = v at hres b1 b2 b3 b4 b5 b6 b7
+  split at hres
+  · cases hres
+  · simp only [Except.ok.injEq, Prod.mk.injEq] at hres; obtain ⟨rfl, _⟩ := hres
+    exact ⟨b1, b2, by rw [b5, a4]; exact Nat.le_refl _, b6.trans a5⟩
+  · rename_i avail row hcol
+    have hrow : ∀ id ∈ row, id ∈ v.1.priority := by
+      intro id hid
+      rcases collectAll_row hcol id hid with x | x
+      · rw [b4]; exact b7 id x
+      · exact x
+    have hcn' : cn ∈ v.1.nets := by rw [b3, a2]; exact hcn
+    obtain ⟨c1, c2, c3, c4⟩ := putReplace_all b1 b2 hcn' a _ avail hrow hres
+    exact ⟨c1, c2, by rw [b5, a4] at c3; exact c3, c4.trans (b6.trans a5)⟩
+
 /-- `_vbi_cache_put_page` -/
 theorem putPage_all {s : State} (h : InvW s) (hz : ZNet s) (nid : Nat) (a : PutArg) {s' : State} {r : Option Page}
     (hres : s.putPage nid a = .ok (s', r)) :
@@ -252,29 +276,6 @@ theorem putPage_all {s : State} (h : InvW s) (hz : ZNet s) (nid : Nat) (a : PutA
       exact ⟨h, hz, Nat.le_refl _, rfl⟩
     · split at hres
       · cases hres
-      · simp only at hres
-        obtain ⟨a1, a2, a3, a4, a5, _, _, a8, a9⟩ := pageByPgno_all h cn.id a.pgno
-          ((putKey (cn.getStat a.pgno).ptype a.pgno a.subno).1 &&& (putKey (cn.getStat a.pgno).ptype a.pgno a.subno).2)
-          (putKey (cn.getStat a.pgno).ptype a.pgno a.subno).2
-        generalize s.pageByPgno cn.id a.pgno
-          ((putKey (cn.getStat a.pgno).ptype a.pgno a.subno).1 &&& (putKey (cn.getStat a.pgno).ptype a.pgno a.subno).2)
-          (putKey (cn.getStat a.pgno).ptype a.pgno a.subno).2 = r0 at hres a1 a2 a3 a4 a5 a8 a9
-        have z1 : ZNet r0.1 := znet_of_key (by rw [a2]) hz
-        obtain ⟨b1, b2, b3, b4, b5, b6, b7⟩ := putVictim_all a1 z1 r0.2 ((s.memLimit : Int) - s.memUsed)
-          (fun o ho => (a3 o).2 (a9 o ho).1)
-        generalize r0.1.putVictim r0.2 ((s.memLimit : Int) - s.memUsed) = v at hres b1 b2 b3 b4 b5 b6 b7
-        split at hres
-        · cases hres
-        · simp only [Except.ok.injEq, Prod.mk.injEq] at hres; obtain ⟨rfl, _⟩ := hres
-          exact ⟨b1, b2, by rw [b5, a4]; exact Nat.le_refl _, b6.trans a5⟩
-        · rename_i avail row hcol
-          have hrow : ∀ id ∈ row, id ∈ v.1.priority := by
-            intro id hid
-            rcases collectAll_row hcol id hid with x | x
-            · rw [b4]; exact b7 id x
-            · exact x
-          have hcn' : cn ∈ v.1.nets := by rw [b3, a2]; exact hcn
-          obtain ⟨c1, c2, c3, c4⟩ := putReplace_all b1 b2 hcn' a _ avail hrow hres
-          exact ⟨c1, c2, by rw [b5, a4] at c3; exact c3, c4.trans (b6.trans a5)⟩
+      · exact putTail_all h hz hcn a _ _ _ hres
 
 end Zvbi.Cache
